@@ -152,14 +152,19 @@ def handler(payload):
     if payload.get("fast_poll", True):
         fast_poll()
     out = []
+    # the same directory path for every job of this process (emptied in between), see rw_worker
+    import shutil
+    wd = os.path.join(os.getcwd(), "jobdir")
     for i, job in enumerate(payload["jobs"]):
-        with tempfile.TemporaryDirectory(prefix="job%d-" % i, dir=os.getcwd()) as wd:
-            if job["kind"] == "act":
-                out.append(run_act(job, wd))
-            elif job["kind"] == "one_step":
-                out.append(run_one_step(job, wd))
-            else:
-                raise ValueError(job["kind"])
+        shutil.rmtree(wd, ignore_errors=True)
+        os.mkdir(wd)
+        if job["kind"] == "act":
+            out.append(run_act(job, wd))
+        elif job["kind"] == "one_step":
+            out.append(run_one_step(job, wd))
+        else:
+            raise ValueError(job["kind"])
+    shutil.rmtree(wd, ignore_errors=True)
     return out
 
 
